@@ -50,7 +50,7 @@ def g_event_cmd(d, idx, sort, nev):
     return c
 
 
-def gen_history(d, qcap, flags, lines=True, holds=True, long_history=True, line_tags=None):
+def gen_history(d, qcap, flags, lines=True, holds=True, long_history=True, line_tags=None, lists=False):
     nev = d.rng(2, 5)
     sorts = [d.weighted([(3, "auto"), (3, "scripted"), (2, "chain"), (3, "failing")]) for _ in range(nev)]
     if "failing" not in sorts and d.chance(2, 3):
@@ -64,7 +64,9 @@ def gen_history(d, qcap, flags, lines=True, holds=True, long_history=True, line_
             codes = [OK, DATA_OK, DATA_NEXT, NEXT, ERR] + ([HOLD, HOLD] if holds else [])
             for k in h:
                 if d.below(2):
-                    c["scripts"]["0" + k] = [S.mk_step(d.pick(codes), d.below(3) if k == "r" else 0, d.pick(line_tags or G.TAGS[:5])) for _ in range(d.rng(1, 3))]
+                    # (lists: a run handler may ask for the command list - some entries, e.g. of a long-named event command, do not fit)
+                    ck = codes + ([S.LIST, S.LIST] if (lists and k == "n") else [])
+                    c["scripts"]["0" + k] = [S.mk_step(d.pick(ck), d.below(3) if k == "r" else 0, d.pick(line_tags or G.TAGS[:5])) for _ in range(d.rng(1, 3))]
             lcs.append(c)
     for c in evs:
         if d.unlikely(1, 6):
